@@ -2,14 +2,15 @@
 # tools/seedbatch.sh <Cxx> [extra props comma separated]: import a seeding agent's deliverables from /tmp/seed/<Cxx>/out into
 # seeded/<Cxx>-A, seeded/<Cxx>-B and run tools/seedcheck.py (validation + the property's quick check) on each.
 cd "$(dirname "$0")/.."
-p=$1; props=${2:-$p}
+p=$1; props=${2:-$p}; src=${SEED_SRC:-/tmp/seed}; suffix=${SEED_SUFFIX:-}
 for x in A B; do
-  [ -f /tmp/seed/$p/out/patch_$x.diff ] || continue
-  mkdir -p seeded/$p-$x
-  cp /tmp/seed/$p/out/patch_$x.diff seeded/$p-$x/patch.diff; cp /tmp/seed/$p/out/demo_$x.py seeded/$p-$x/demo.py
-  cp /tmp/seed/$p/out/notes_$x.md seeded/$p-$x/notes.md 2>/dev/null
-  [ -f seeded/$p-$x/meta.json ] || echo "{\"property\": \"$p\"}" > seeded/$p-$x/meta.json
-  python3 tools/seedcheck.py seeded/$p-$x --props $props 2>&1 | python3 -c "
+  [ -f $src/$p/out/patch_$x.diff ] || continue
+  y=$x; if [ "$suffix" = "2" ]; then if [ $x = A ]; then y=C; else y=D; fi; fi
+  mkdir -p seeded/$p-$y
+  cp $src/$p/out/patch_$x.diff seeded/$p-$y/patch.diff; cp $src/$p/out/demo_$x.py seeded/$p-$y/demo.py
+  cp $src/$p/out/notes_$x.md seeded/$p-$y/notes.md 2>/dev/null
+  [ -f seeded/$p-$y/meta.json ] || echo "{\"property\": \"$p\"}" > seeded/$p-$y/meta.json
+  python3 tools/seedcheck.py seeded/$p-$y --props $props 2>&1 | python3 -c "
 import sys,json
 for l in sys.stdin:
     if l.startswith('{'):
